@@ -36,6 +36,14 @@ def stat_lcs(t: STensor) -> Dict[str, LC]:
         return {"mean_abs": a.mean().lc, "abs_mean": t.mean().abs().lc, "std": t.std().lc, "abs_max": a.max().lc, "abs_min": a.min().lc}
 
 
+def _eq_stat(c: Ctx, missing: str, name: str, got: Any, want: LC, info: Dict[str, Any]) -> None:
+    """a recorded number = the read-out of the expected statistic term (read-outs are hash-consed per term and linear, see tensor._item_of)"""
+    if not isinstance(got, SReal):
+        c.oblige(missing, z3.BoolVal(False), info={**info, "mismatch": repr(got)})
+        return
+    c.oblige(name, got.z == T._item_of(want, True).z, info=info)
+
+
 def _scalar_loss(out: Any) -> STensor:
     if isinstance(out, (tuple, list)):
         parts = [o if len(o.shape) == 0 else o.sum() for o in out if isinstance(o, STensor) and o.meta.is_floating_point()]
@@ -102,11 +110,8 @@ def harness(spec: Any, cap: Any):
                 want = stat_lcs(val)
                 for f in FIELDS:
                     got = getattr(m.fwd, f)
-                    lc = dv.get(got.z.get_id()) if isinstance(got, SReal) else None
-                    if lc is None:
-                        c.oblige(f"{n.name}: fwd.{f} is a statistic of a tensor", z3.BoolVal(False), info={**info, "claim": "metrics", "node": n.name, "mismatch": f"{got!r}"})
-                    else:
-                        _eq_lc(c, f"{n.name}: fwd.{f} = statistic of the tensor that flowed there", lc, want[f], {**info, "claim": "metrics", "node": n.name})
+                    _eq_stat(c, f"{n.name}: fwd.{f} is a statistic of a tensor", f"{n.name}: fwd.{f} = statistic of the tensor that flowed there", got, want[f],
+                             {**info, "claim": "metrics", "node": n.name})
                 numel = m.fwd.numel
                 c.oblige(f"{n.name}: fwd.numel", (numel == val.numel()) if not isinstance(numel == val.numel(), bool) else z3.BoolVal(numel == val.numel()),
                          info={**info, "claim": "metrics", "node": n.name})
@@ -120,11 +125,8 @@ def harness(spec: Any, cap: Any):
                     wantb = stat_lcs(STensor(gT, val.shape, val.meta))
                     for f in FIELDS:
                         got = getattr(m.bwd, f)
-                        lc = dv.get(got.z.get_id()) if isinstance(got, SReal) else None
-                        if lc is None:
-                            c.oblige(f"{n.name}: bwd.{f} is a statistic of a tensor", z3.BoolVal(False), info={**info, "claim": "metrics", "node": n.name, "mismatch": f"{got!r}"})
-                        else:
-                            _eq_lc(c, f"{n.name}: bwd.{f} = statistic of the TOTAL gradient that reached it", lc, wantb[f], {**info, "claim": "metrics", "node": n.name})
+                        _eq_stat(c, f"{n.name}: bwd.{f} is a statistic of a tensor", f"{n.name}: bwd.{f} = statistic of the TOTAL gradient that reached it", got, wantb[f],
+                                 {**info, "claim": "metrics", "node": n.name})
 
             # ---- a second, forward-only call of the same tracked graph with other data: metrics are those of THIS call
             leaves2 = {k: STensor.leaf(k + "'", t.shape, t.dtype, requires_grad=t.requires_grad) for k, t in leaves.items()}
@@ -138,12 +140,8 @@ def harness(spec: Any, cap: Any):
                     continue
                 m = n.meta["metrics"]
                 got = m.fwd.mean_abs
-                lc = dv.get(got.z.get_id()) if isinstance(got, SReal) else None
-                if lc is None:
-                    c.oblige(f"{n.name}: second call: fwd.mean_abs recorded", z3.BoolVal(False), info={**info, "claim": "second", "node": n.name, "mismatch": repr(got)})
-                else:
-                    _eq_lc(c, f"{n.name}: second call: fwd.mean_abs = statistic of the tensor of the second call", lc, stat_lcs(val)["mean_abs"],
-                           {**info, "claim": "second", "node": n.name})
+                _eq_stat(c, f"{n.name}: second call: fwd.mean_abs recorded", f"{n.name}: second call: fwd.mean_abs = statistic of the tensor of the second call", got,
+                         stat_lcs(val)["mean_abs"], {**info, "claim": "second", "node": n.name})
                 c.oblige(f"{n.name}: second (forward-only) call reports no backward metrics", z3.BoolVal(m.bwd is None), info={**info, "claim": "second", "node": n.name})
 
     return h
@@ -152,9 +150,73 @@ def harness(spec: Any, cap: Any):
 # ------------------------------------------------------------------------------------------ concrete (real path)
 def concrete_check(spec: Any) -> Tuple[bool, str]:
     """real track_scales through Dynamo vs the unwrapped module, bit for bit; recorded numbers vs recomputed statistics"""
-    from unit_scaling.transforms import track_scales
     p = build(spec)
-    inputs = p.example_inputs()
+    return _bit_identical(p, p.example_inputs(), spec_name(spec))
+
+
+class _TiedEmbedOut(torch.nn.Module):
+    """token embedding and output projection share ONE parameter (weight tying across two torch.nn children)"""
+
+    def __init__(self) -> None:
+        super().__init__()
+        self.emb = torch.nn.Embedding(9, 6)
+        self.mid = torch.nn.Linear(6, 6)
+        self.out = torch.nn.Linear(6, 9, bias=False)
+        self.out.weight = self.emb.weight
+
+    def forward(self, i: torch.Tensor) -> torch.Tensor:
+        return self.out(torch.tanh(self.mid(self.emb(i)))).square().mean()
+
+
+class _SharedWeightTwoLinears(torch.nn.Module):
+    def __init__(self, unit_scaled: bool) -> None:
+        super().__init__()
+        import unit_scaling as uu
+        L = uu.Linear if unit_scaled else torch.nn.Linear
+        self.a, self.b = L(6, 6), L(6, 6)
+        self.b.weight = self.a.weight
+
+    def forward(self, x: torch.Tensor) -> torch.Tensor:
+        return self.b(torch.relu(self.a(x))).sum()
+
+
+class _SameModuleTwice(torch.nn.Module):
+    def __init__(self) -> None:
+        super().__init__()
+        self.l = torch.nn.Linear(6, 6)
+
+    def forward(self, x: torch.Tensor) -> torch.Tensor:
+        return self.l(torch.tanh(self.l(x))).sum()
+
+
+SHARING = {
+    "tied embedding/output weight": (lambda: _TiedEmbedOut(), lambda: [torch.randint(0, 9, (5,))]),
+    "one weight in two nn.Linear": (lambda: _SharedWeightTwoLinears(False), lambda: [torch.randn(4, 6)]),
+    "one weight in two uu.Linear": (lambda: _SharedWeightTwoLinears(True), lambda: [torch.randn(4, 6)]),
+    "one nn.Linear called twice": (lambda: _SameModuleTwice(), lambda: [torch.randn(4, 6)]),
+}
+
+
+def concrete_sharing(name: str) -> Tuple[bool, str]:
+    torch.manual_seed(3)
+    mk, ins = SHARING[name]
+    return _bit_identical(mk(), ins(), name)
+
+
+def task_sharing(name: str) -> List[Dict[str, Any]]:
+    """parameters shared between sub-modules: the tracked copy must keep them shared (values and gradients of the unwrapped module)"""
+    torch.set_num_threads(1)
+    try:
+        bad, desc = concrete_sharing(name)
+    except Exception as e:
+        return [{"type": "obligation", "name": f"sharing[{name}]", "status": INCONCLUSIVE, "queries": 0, "detail": f"{type(e).__name__}: {e}"}]
+    if bad:
+        return [{"type": "violation", "key": f"C18/sharing[{name}]", "what": desc, "replay": {"kind": "sharing", "name": name}}]
+    return [{"type": "obligation", "name": f"sharing[{name}]/real track_scales: outputs and gradients bit-identical", "status": CONCRETE, "queries": 0, "kind": "concrete", "detail": desc}]
+
+
+def _bit_identical(p: Any, inputs: List[torch.Tensor], label: str) -> Tuple[bool, str]:
+    from unit_scaling.transforms import track_scales
     ins_a = [t.clone().requires_grad_(True) if t.is_floating_point() else t.clone() for t in inputs]
     torch.manual_seed(0)
     out_a = p(*ins_a)
@@ -172,7 +234,7 @@ def concrete_check(spec: Any) -> Tuple[bool, str]:
         lb = out_b[0].sum() + out_b[1] if isinstance(out_b, tuple) else (out_b if out_b.dim() == 0 else out_b.sum())
         lb.backward()
     except Exception as e:
-        return True, f"track_scales({spec_name(spec)}) raises {type(e).__name__}: {str(e)[:200]}"
+        return True, f"track_scales({label}) raises {type(e).__name__}: {str(e)[:200]}"
     finally:
         torch._dynamo.reset()
     bad = []
@@ -188,7 +250,7 @@ def concrete_check(spec: Any) -> Tuple[bool, str]:
         if k not in pb or not torch.equal(pa[k], pb[k]):
             bad.append(f"parameter gradient {k} differs")
             break
-    return bool(bad), f"track_scales({spec_name(spec)}): " + "; ".join(bad[:4] or ["bit-identical to the unwrapped module"])
+    return bool(bad), f"track_scales({label}): " + "; ".join(bad[:4] or ["bit-identical to the unwrapped module"])
 
 
 def concrete_metrics(spec: Any) -> Tuple[bool, str]:
@@ -365,20 +427,12 @@ def h_analyse(which: str):
                 with no_grad():
                     want = T.lift(val).std().lc
                 got = pair.forward
-                lc = dv.get(got.z.get_id()) if isinstance(got, SReal) else None
-                if lc is None:
-                    c.oblige(f"analyse: {name} forward scale recorded", z3.BoolVal(False), info={**info, "claim": "an", "mismatch": repr(got)})
-                else:
-                    _eq_lc(c, f"analyse: {name} forward scale = std of the tensor", lc, want, {**info, "claim": "an"})
+                _eq_stat(c, f"analyse: {name} forward scale recorded", f"analyse: {name} forward scale = std of the tensor", got, want, {**info, "claim": "an"})
                 gT = grec.get(id(T.lift(val)))
                 if gT is not None and pair.backward is not None:
                     with no_grad():
                         wb = STensor(gT, T.lift(val).shape, T.lift(val).meta).std().lc
-                    lcb = dv.get(pair.backward.z.get_id()) if isinstance(pair.backward, SReal) else None
-                    if lcb is not None:
-                        _eq_lc(c, f"analyse: {name} backward scale = std of the total gradient", lcb, wb, {**info, "claim": "an"})
-                    else:
-                        c.oblige(f"analyse: {name} backward scale recorded", z3.BoolVal(False), info={**info, "claim": "an", "mismatch": repr(pair.backward)})
+                    _eq_stat(c, f"analyse: {name} backward scale recorded", f"analyse: {name} backward scale = std of the total gradient", pair.backward, wb, {**info, "claim": "an"})
 
     return h
 
@@ -414,8 +468,10 @@ def run(rep: Report, only: str = "") -> None:
     specs = tprograms(rep.tier)
     tasks: List[Any] = [(task_program, (s, timeout)) for s in specs]
     tasks += [(task_analyse, (w,)) for w in ("uu.MLP", "nn.Sequential", "uu.Linear+norm")]
+    tasks += [(task_sharing, (n,)) for n in SHARING]
     if only:
         tasks = [t for t in tasks if only in (spec_name(t[1][0]) if t[0] is task_program else t[1][0])]
+    
     rep.extend(run_tasks(tasks))
     rep.functions = [describe_function(f) for f in (uts.ScaleTrackingInterpreter.run_node, uts.ScaleTrackingAutogradFunction.forward, uts.ScaleTrackingAutogradFunction.backward,
                                                     uts.Metrics.from_tensor, uts._get_tracking_meta, uts._is_float_tensor, uts.track_scales, uts._make_input_tensors_require_grad,
@@ -423,6 +479,8 @@ def run(rep: Report, only: str = "") -> None:
     rep.bounds = {"programs": f"{len(specs)} programs (C16 vocabulary + fan-out, bool and integer intermediates, views, negation, in-place adds, multiple outputs, parameters, conv), enumerated",
                   "symbolic": "all tensor data and dims universally quantified; every recorded statistic is an opaque term item(stat(T)) over the data symbols and must unify with the same "
                               "statistic of the tensor / total gradient of the plain interpretation",
+                  "sharing": "four hand-written modules whose sub-modules share a parameter (tied embedding/output weight, one weight in two Linear layers, one layer called twice): "
+                             "the real track_scales is bit-identical to the unwrapped module, per-name parameter gradients included (concrete)",
                   "concrete": "the real track_scales through TorchDynamo on real inputs: bit-identical outputs and gradients, recorded numbers equal recomputed statistics",
                   "outside": "numeric evaluation of mean/std/max (torch's); zeros in inputs matter only numerically (abs_min), not for the term structure"}
     rep.assumptions = ["mini-autograd accumulates gradients at fan-out as torch.autograd does (total gradient per tensor is recorded from it)"]
@@ -431,6 +489,8 @@ def run(rep: Report, only: str = "") -> None:
 
 
 def replay(data: Dict[str, Any]) -> Tuple[bool, str]:
+    if data.get("kind") == "sharing":
+        return concrete_sharing(data["name"])
     info = data.get("info") or {}
     if "module" in info:
         return replay_analyse(data["obligation"], data["model"], info)
